@@ -1,6 +1,7 @@
 package main
 
 import (
+	"github.com/xjslang/xjs/lexer"
 	"github.com/xjslang/xjs/sourcemap"
 )
 
@@ -8,4 +9,6 @@ var registry = map[string]func(){
 	"github.com/xjslang/xjs/sourcemap.ZZH9aVLQ":      sourcemap.ZZH9aVLQ,
 	"github.com/xjslang/xjs/sourcemap.ZZH9bMappings": sourcemap.ZZH9bMappings,
 	"github.com/xjslang/xjs/sourcemap.ZZH9cHistory":  sourcemap.ZZH9cHistory,
+	"github.com/xjslang/xjs/lexer.ZZH10Step":         lexer.ZZH10Step,
+	"github.com/xjslang/xjs/lexer.ZZH10Init":         lexer.ZZH10Init,
 }
